@@ -1,0 +1,60 @@
+//go:build verif
+
+package document
+
+import (
+	"crypto/sha256"
+	"encoding/hex"
+	"fmt"
+	"sort"
+)
+
+// VerifResetProcessState puts the process-wide registries back into the state
+// a freshly started process has. Only compiled with the "verif" build tag; it
+// is used by the simulation harness to model a process restart and to obtain
+// reproducible single-document baselines inside one process.
+func VerifResetProcessState() {
+	globalFootnoteManager = nil
+	globalNumberingManager = nil
+}
+
+// VerifProcessStateDigest returns a digest of the contents of the process-wide
+// registries ("" when both are still unset). Only compiled with the "verif"
+// build tag.
+func VerifProcessStateDigest() string {
+	if globalFootnoteManager == nil && globalNumberingManager == nil {
+		return ""
+	}
+	h := sha256.New()
+	if m := globalFootnoteManager; m != nil {
+		fmt.Fprintf(h, "fn:%d:%d;", m.nextFootnoteID, m.nextEndnoteID)
+		keys := make([]string, 0, len(m.footnotes))
+		for k := range m.footnotes {
+			keys = append(keys, k)
+		}
+		sort.Strings(keys)
+		fmt.Fprintf(h, "f%q;", keys)
+		keys = keys[:0]
+		for k := range m.endnotes {
+			keys = append(keys, k)
+		}
+		sort.Strings(keys)
+		fmt.Fprintf(h, "e%q;", keys)
+	}
+	if m := globalNumberingManager; m != nil {
+		fmt.Fprintf(h, "nm:%d:%d;", m.nextAbstractNumID, m.nextNumID)
+		keys := make([]string, 0, len(m.abstractNums))
+		for k := range m.abstractNums {
+			keys = append(keys, k)
+		}
+		sort.Strings(keys)
+		fmt.Fprintf(h, "a%q;", keys)
+		keys = keys[:0]
+		for k := range m.numInstances {
+			keys = append(keys, k)
+		}
+		sort.Strings(keys)
+		fmt.Fprintf(h, "n%q;", keys)
+	}
+	return hex.EncodeToString(h.Sum(nil))[:16]
+}
